@@ -861,3 +861,26 @@ def wrappers_of(prog, targets, forbid=()):
             found.add(b.path)
             changed = True
     return found
+
+
+def call_result_assumption(body, assume):
+    """decider for may_reach: `assume` maps a predicate over Callee to the bool its result is assumed to have, for
+    every call of that callee in the body: {lambda c: c.path.endswith("is_graphics_element"): True}"""
+    fixed = {}
+    for pred, val in assume:
+        for (bb, t, c) in body.call_sites(pred):
+            fixed[bb] = val
+
+    def decide(bb, t):
+        o = origin(body, t["op"], carriers={})
+        neg = False
+        if o[0] == "rv" and o[1].get("k") == "unop" and o[1].get("op") == "Not":
+            neg = True
+            o = origin(body, o[1]["a"], carriers={})
+        if o[0] == "call" and o[1] in fixed:
+            truth = fixed[o[1]] != neg
+            tt, ft = switch_targets_bool(t)
+            return [tt] if truth else [ft]
+        return None
+
+    return decide
